@@ -15,6 +15,7 @@ import (
 	"os"
 	"sort"
 	"strconv"
+	"strings"
 	"sync"
 	"testing"
 	"time"
@@ -177,6 +178,9 @@ func VHit(outcome string) error {
 		vrec.inbh = stat.InboundNode().CurrentConcurrency() - vrec.inb0
 	}
 	vrec.mu.Unlock()
+	if strings.HasPrefix(outcome, "err@") {
+		return errors.New("verif: the wrapped call failed (" + outcome + ")")
+	}
 	switch outcome {
 	case "err":
 		return VErr
@@ -201,8 +205,24 @@ func VAwaitExit() {
 				exit++
 			}
 		}
+		names, inb0 := append([]string{}, vrec.names...), vrec.inb0
 		vrec.mu.Unlock()
 		if exit >= pass {
+			// the recording slot (order 0) sees the completion BEFORE the core's statistic slot lowers the gauges of the
+			// resource and of the inbound node on that other goroutine: let them settle (bounded; a real leak stays visible)
+			settle := time.Now().Add(300 * time.Millisecond)
+			for time.Now().Before(settle) {
+				ok := stat.InboundNode().CurrentConcurrency() <= inb0
+				for _, n := range names {
+					if rn := stat.GetResourceNode(n); rn != nil && rn.CurrentConcurrency() > 0 {
+						ok = false
+					}
+				}
+				if ok {
+					return
+				}
+				time.Sleep(200 * time.Microsecond)
+			}
 			return
 		}
 		time.Sleep(time.Millisecond)
@@ -218,9 +238,18 @@ type VCls struct {
 	Errsig  bool   `json:"errsig"`
 	Fb      string `json:"fb"`
 	Outcome string `json:"outcome"`
+	Layer   string `json:"layer"` // where the error of the wrapped call arises: "node" (the handler itself) | "pre" | "post"
 	Side    string `json:"side"` // "server" | "client": what the entry point is
 	Flow    bool   `json:"flow"` // a flow rule with threshold 0 is loaded on the resource the request is meant to hit
 	Sys     string `json:"sys"`  // "none" | "slack" | "violated": the system rules while the request is sent
+}
+
+// VLayerOf maps the places where a layered downstream call can fail to the layer of AdapterContract.tla.
+var VLayerOf = map[string]string{
+	"err@registry": "pre",  // service unknown to the registry / no node available
+	"err@ctx":      "pre",  // the caller's context is already cancelled: the framework gives up before a node is called
+	"err@backoff":  "pre",  // the backoff hook of the call options fails
+	"err@retry":    "post", // the node failed and the retry hook of the call options returns an error of its own
 }
 
 // VCase is one (entry point, option variant) of an adapter.
@@ -240,6 +269,9 @@ type VCase struct {
 	Send func(blocked bool, outcome string) (rejected bool)
 	// Outcomes the handler type can express (default: ok, err, panic)
 	Outcomes []string
+	// Layers: further outcomes "err@<place>" of a client-side entry point whose downstream call can fail at other layers of
+	// the framework than the node itself (see VLayerOf); sent as admitted requests; Send gets the name and arranges it
+	Layers []string
 	// Last: run after every other case (the case changes process-wide state)
 	Last bool
 }
@@ -285,6 +317,7 @@ func VRun(t *testing.T, adapter string, cases []VCase) {
 	seen := map[string]bool{}
 	eps, opts := map[string]bool{}, map[string]bool{}
 	sides := map[string]string{}
+	layers := map[string][]string{}
 	for _, c := range cases {
 		eps[c.Ep] = true
 		if c.Side != "server" && c.Side != "client" {
@@ -294,6 +327,14 @@ func VRun(t *testing.T, adapter string, cases []VCase) {
 			t.Fatalf("%s: declared both server-side and client-side", c.Ep)
 		}
 		sides[c.Ep] = c.Side
+		for _, l := range c.Layers {
+			if VLayerOf[l] == "" || c.Side != "client" {
+				t.Fatalf("%s/%s: layer %q not known / not a client-side entry point", c.Ep, c.Variant, l)
+			}
+		}
+		if len(c.Layers) > 0 {
+			layers[c.Ep+" / "+c.Variant] = c.Layers
+		}
 		for _, o := range c.Options {
 			opts[o] = true
 		}
@@ -309,7 +350,7 @@ func VRun(t *testing.T, adapter string, cases []VCase) {
 	if _, err := flow.LoadRules(rules); err != nil {
 		t.Fatal(err)
 	}
-	vEmit(map[string]interface{}{"op": "registry", "adapter": adapter, "eps": vKeys(eps), "options": vKeys(opts), "sides": sides})
+	vEmit(map[string]interface{}{"op": "registry", "adapter": adapter, "eps": vKeys(eps), "options": vKeys(opts), "sides": sides, "layers": layers})
 
 	// VERIF_ROUNDS rounds; within a round the requests are sent in an order seeded by VERIF_SEED
 	rounds, _ := strconv.Atoi(os.Getenv("VERIF_ROUNDS"))
@@ -340,6 +381,13 @@ func VRun(t *testing.T, adapter string, cases []VCase) {
 					} else {
 						first = append(first, one{c, blocked, oc, ""})
 					}
+				}
+			}
+			for _, oc := range c.Layers {
+				if c.Last {
+					last = append(last, one{c, false, oc, ""})
+				} else {
+					first = append(first, one{c, false, oc, ""})
 				}
 			}
 			for _, sys := range VSysLoads {
@@ -465,9 +513,13 @@ func vOne(t *testing.T, adapter string, c VCase, blocked bool, outcome string, s
 		}
 	}
 	vTr++
+	clsOutcome, layer := outcome, "node"
+	if l, ok := VLayerOf[outcome]; ok {
+		clsOutcome, layer = "err", l
+	}
 	vEmit(map[string]interface{}{
 		"op": "req", "tr": vTr, "adapter": adapter, "ep": c.Ep, "variant": c.Variant, "want": want,
-		"res": res, "cls": VCls{c.Wraps, c.Errsig, c.Fb, outcome, c.Side, blocked, sysState}, "events": events, "conc": conc, "escaped": escaped, "panic": pv,
+		"res": res, "oc": outcome, "cls": VCls{c.Wraps, c.Errsig, c.Fb, clsOutcome, layer, c.Side, blocked, sysState}, "events": events, "conc": conc, "escaped": escaped, "panic": pv,
 		"src": map[bool]string{false: "slot", true: "node"}[c.Private], "seen": append([]string{}, vrec.names...),
 		"btype": btype, "inb": inb, "inbh": inbh,
 	})
